@@ -1,0 +1,74 @@
+// Copyright 2026 The panicparse verification authors. All rights reserved.
+// Use of this source code is governed under the Apache License, Version 2.0
+// that can be found in the LICENSE file.
+
+//go:build verif
+
+// This file only re-exports unexported functions for the verification harness
+// kept outside this repository. It adds no behaviour and is excluded from
+// normal builds.
+
+package internal
+
+import (
+	"io"
+	"regexp"
+
+	"github.com/maruel/panicparse/v2/stack"
+)
+
+// VerifPalette returns the default palette when colour is true, else the
+// empty one.
+func VerifPalette(colour bool) *Palette {
+	if colour {
+		p := defaultPalette
+		return &p
+	}
+	return &Palette{}
+}
+
+// VerifPathFormats returns the numerical values of fullPath, relPath and
+// basePath.
+func VerifPathFormats() (int, int, int) {
+	return int(fullPath), int(relPath), int(basePath)
+}
+
+// VerifProcess exposes process with GuessPaths off.
+func VerifProcess(in io.Reader, out io.Writer, p *Palette, s stack.Similarity, pf int, filter, match *regexp.Regexp) error {
+	return process(in, out, p, s, pathFormat(pf), false, false, "", filter, match)
+}
+
+// VerifWriteBuckets exposes writeBucketsToConsole.
+func VerifWriteBuckets(out io.Writer, p *Palette, a *stack.Aggregated, pf int, needsEnv bool, filter, match *regexp.Regexp) error {
+	return writeBucketsToConsole(out, p, a, pathFormat(pf), needsEnv, filter, match)
+}
+
+// VerifWriteGoroutines exposes writeGoroutinesToConsole.
+func VerifWriteGoroutines(out io.Writer, p *Palette, s *stack.Snapshot, pf int, needsEnv bool, filter, match *regexp.Regexp) error {
+	return writeGoroutinesToConsole(out, p, s, pathFormat(pf), needsEnv, filter, match)
+}
+
+// VerifBucketHeader exposes Palette.BucketHeader.
+func VerifBucketHeader(p *Palette, b *stack.Bucket, pf int, multi bool) string {
+	return p.BucketHeader(b, pathFormat(pf), multi)
+}
+
+// VerifGoroutineHeader exposes Palette.GoroutineHeader.
+func VerifGoroutineHeader(p *Palette, g *stack.Goroutine, pf int, multi bool) string {
+	return p.GoroutineHeader(g, pathFormat(pf), multi)
+}
+
+// VerifStackLines exposes Palette.StackLines.
+func VerifStackLines(p *Palette, s *stack.Signature, srcLen, pkgLen, pf int) string {
+	return p.StackLines(s, srcLen, pkgLen, pathFormat(pf))
+}
+
+// VerifCalcBucketsLengths exposes calcBucketsLengths.
+func VerifCalcBucketsLengths(a *stack.Aggregated, pf int) (int, int) {
+	return calcBucketsLengths(a, pathFormat(pf))
+}
+
+// VerifCalcGoroutinesLengths exposes calcGoroutinesLengths.
+func VerifCalcGoroutinesLengths(s *stack.Snapshot, pf int) (int, int) {
+	return calcGoroutinesLengths(s, pathFormat(pf))
+}
